@@ -345,6 +345,15 @@ func nativeByPattern(name string) nativeFn {
 			return a[0], true
 		}
 	}
+	if name == "sort.SliceStable" || name == "sort.Slice" {
+		// sort.Slice(x any, less): x's elements in an order decided by less (the order is not modelled)
+		return func(x *Exec, st *State, fr *Frame, at ssa.Instruction, a []Val) (Val, bool) {
+			if len(a) != 2 || a[0].Dyn == nil || a[0].Dyn.T.Sort != SSlice {
+				return Val{}, false
+			}
+			return slicesPermute(x, st, []Val{*a[0].Dyn}, false)
+		}
+	}
 	if name == "github.com/VolumeFi/whoops.Assert" {
 		return func(x *Exec, st *State, fr *Frame, at ssa.Instruction, a []Val) (Val, bool) {
 			if len(a) != 1 || a[0].T.Sort != SIface {
